@@ -200,3 +200,81 @@ class ConstFold(Contract):
                     if w == 1:
                         yield ('%s w=1 %d cw' % (op, lv), mk(op, lv, 0, w, True, False))
                         yield ('%s w=1 %d wc' % (op, lv), mk(op, 0, lv, w, False, True))
+
+
+# ------------------------------------------------------------------------------ lowering rules (C09)
+class _SynthRule(Contract):
+    """A per-net rewrite rule run through transform.all_nets: either it keeps the net (returns a
+    truthy value and builds nothing) or it drives the net's destination with new logic computing
+    the documented value of the original net, and returns a falsy value (so net_transform drops
+    the original net)."""
+    module = 'pyrtl.passes'
+    KEEP = ''
+    REWRITE = ''
+
+    @property
+    def hooks(self):
+        from contracts import wiremodel as W
+        return W.hooks()
+
+    def cases(self):
+        return list(self.KEEP + self.REWRITE + '+')
+
+    def setup(self, I, case):
+        from contracts import wiremodel as W
+        a, b = W.input_wire(I, 'a'), W.input_wire(I, 'b')
+        dest = W.new_wire(I, W.bw_of(a), None, hint='dest')
+        I.st.assume(W.bw_of(a) == W.bw_of(b))
+        # the rules are applied to synthesized (one-bit) netlists; wider wires: bounded family
+        I.st.assume(W.bw_of(a) == 1)
+        nargs = {'~': 1, 'r': 1, 'w': 1, 's': 1, 'm': 1, '@': 3, 'c': 2}.get(case, 2)
+        args = (a, b, a)[:nargs]
+        net = M.net(case, None, args, (dest,))
+        return NS(args=[net], op=case, a=a, b=b, dest=dest, va=W.den_of(a), vb=W.den_of(b), w=W.bw_of(a))
+
+    def raises(self, ns):
+        return [('PyrtlError', ns.op not in self.KEEP + self.REWRITE)]
+
+    def post(self, ns):
+        import z3
+        from contracts import wiremodel as W
+        blk_nets = W.block_of_nets(ns)
+        if ns.op in self.KEEP:
+            return [('kept nets return a truthy value', z3.BoolVal(ns.result is True)),
+                    ('nothing is built for a kept net', z3.BoolVal(ns.dest.fields.get('_den') is None))]
+        want = _netsem2(ns.op, ns.va, ns.vb, ns.w)
+        if ns.dest.fields.get('_den') is None:
+            return [('the destination is driven by the new logic', z3.BoolVal(False))]
+        return [('returns a falsy value so the original net is removed', z3.BoolVal(not ns.result)),
+                ('new logic computes the documented value of the net', W.den_of(ns.dest) == want)]
+
+
+@register
+class NandSynth(_SynthRule):
+    qualname, props = 'nand_synth', ('C09',)
+    KEEP, REWRITE = '~nrwcsm@', '&|^'
+
+    def post(self, ns):
+        out = _SynthRule.post(self, ns)
+        return out + self._only_ops(ns, 'n~w')
+
+    def _only_ops(self, ns, allowed):
+        import z3
+        from contracts import wiremodel as W
+        ops = [n.fields['op'] for n in W.block_of(ns._I).fields['_nets']] if getattr(ns, '_I', None) else []
+        return [('only %s nets are created' % allowed, z3.BoolVal(all(o in allowed for o in ops)))]
+
+    def setup(self, I, case):
+        ns = _SynthRule.setup(self, I, case)
+        ns._I = I
+        return ns
+
+
+@register
+class AndInverterSynth(NandSynth):
+    qualname, props = 'and_inverter_synth', ('C09',)
+    KEEP, REWRITE = '~&rwcsm@', '|^n'
+
+    def post(self, ns):
+        out = _SynthRule.post(self, ns)
+        return out + self._only_ops(ns, '&~w')
